@@ -343,13 +343,18 @@ func (fr *Frame) enterLoop(li *loopInfo, cur *State) *State {
 			}
 			li.accOrigin[c.a] = origin
 			li.accGet = append(li.accGet, c.get)
+			weakOnly := strings.HasPrefix(origin, "weak:")
 			own := func(v Term) Term {
 				arr := app("Int", "sl_arr", v)
+				if weakOnly {
+					// the accumulator went through an earlier loop: only "allocated by this function" is kept
+					return or(eq(arr, intLit(0)), app("Bool", ">", arr, wmE))
+				}
 				inLoop := app("Bool", ">", arr, wmPre)
 				if strings.HasPrefix(origin, "new_") && origin != "new_own" {
 					inLoop = or(eq(arr, Term{origin, "Int"}), inLoop)
 				}
-				return or(eq(app("Int", "sl_cap", v), intLit(0)), and(app("Bool", ">", arr, wmE), inLoop))
+				return or(eq(arr, intLit(0)), and(app("Bool", ">", arr, wmE), inLoop))
 			}
 			li.accOwn = append(li.accOwn, own)
 			if r.probing == 0 {
@@ -357,6 +362,12 @@ func (fr *Frame) enterLoop(li *loopInfo, cur *State) *State {
 			}
 			if v, ok := c.get(st); ok {
 				r.assume(st, own(v))
+				// later loops still recognise the accumulator (weak form: some allocation of this function)
+				if c.a.Heap {
+					r.cellOrigin[c.a] = "weak:" + strings.TrimPrefix(origin, "weak:")
+				} else {
+					r.recordSliceTag(v, "weak:"+strings.TrimPrefix(origin, "weak:"))
+				}
 			}
 		}
 	}
@@ -505,7 +516,7 @@ func (li *loopInfo) accOnlyKey(r *Run, k string) bool {
 		ok := false
 		for _, a := range li.ownedAcc {
 			o := li.accOrigin[a]
-			if o != "" && w == o {
+			if o != "" && w == o && !strings.HasPrefix(o, "weak:") {
 				ok = true
 			}
 		}
